@@ -207,3 +207,63 @@ func TestC20Golden(t *testing.T) {
 		}
 	}
 }
+
+// TestC20RefSelftest pins the reference evaluator/parser to the scheme's
+// documented behaviour: the nine cases of testdata/policies.json (copied here,
+// they are the repository's statement of the semantics) and the facts of
+// DESIGN Appendix B.
+func TestC20RefSelftest(t *testing.T) {
+	defer vlib.Done()
+	cases := []struct {
+		policy string
+		attrs  abe.Assignment
+		want   bool
+	}{
+		{"region: US", abe.Assignment{"region": "EU"}, false},
+		{"not region: US", abe.Assignment{"region": "EU"}, true},
+		{"region: US or region: EU or tier: 1 or tier: 2 or tier: 3 and owner: cloudflare", abe.Assignment{"region": "AZ", "tier": "2", "owner": "cloudflare"}, true},
+		{"(region: US or region: EU) or (tier: 1 or tier: 2 or tier: 3) and (owner: cloudflare)", abe.Assignment{"region": "AZ", "tier": "1", "owner": "cloudflare"}, true},
+		{"((region: US or region: EU) and (not (tier: 3)))", abe.Assignment{"region": "EU", "tier": "2", "owner": "cloudflare"}, true},
+		{"not (region: US or region: EU)", abe.Assignment{"region": "EU"}, false},
+		{"not not region: US", abe.Assignment{"region": "EU"}, false},
+		{"region: US or region: US", abe.Assignment{"region": "AZ"}, false},
+		{"region: US and region: EU or region: ASIA", abe.Assignment{"region": "US"}, false},
+		// DESIGN Appendix B
+		{"not a:1", abe.Assignment{}, false},
+		{"not a:1", abe.Assignment{"b": "2"}, false},
+		{"not a:1", abe.Assignment{"a": "2"}, true},
+		{"not a:1", abe.Assignment{"a": "1"}, false},
+		{"not not a:1", abe.Assignment{"a": "1"}, true},
+		{"not not not a:1", abe.Assignment{"a": "0"}, true},
+		{"a:1", abe.Assignment{"a": "1", "zz": "9"}, true},
+		{"not (a:1 and b:2)", abe.Assignment{"a": "1"}, false},             // (not a:1) or (not b:2): a equal, b absent
+		{"not (a:1 and b:2)", abe.Assignment{"a": "1", "b": "0"}, true},    // b present and different
+		{"not (a:1 or b:2)", abe.Assignment{"a": "0"}, false},              // needs both present and different
+		{"not (a:1 or b:2)", abe.Assignment{"a": "0", "b": "1"}, true},
+		{"not not (a:1 and b:2)", abe.Assignment{"a": "1", "b": "2"}, true},
+		{"not not (a:1 and b:2)", abe.Assignment{"a": "1"}, false},
+		{"a:0 or b:1 and c:2", abe.Assignment{"a": "0"}, true},             // and binds tighter than or
+		{"not a:0 and b:1", abe.Assignment{"a": "1"}, false},               // not binds tighter than and
+		{"a:0 and a:1", abe.Assignment{"a": "0"}, false},
+		{"a:0 or not a:0", abe.Assignment{}, false},
+	}
+	for _, c := range cases {
+		n, err := abe.Parse(c.policy)
+		if err != nil {
+			t.Fatalf("SELFTEST-FAIL reference parser rejects %q: %v", c.policy, err)
+		}
+		if g1, g2 := abe.Eval(n, c.attrs), abe.EvalNNF(abe.NNF(n), c.attrs); g1 != c.want || g2 != c.want {
+			t.Fatalf("SELFTEST-FAIL reference evaluators on %q with %s: %v / %v, want %v", c.policy, c.attrs.Text(), g1, g2, c.want)
+		}
+		back, err := abe.Parse(n.Canon())
+		if err != nil || !back.Equal(n) {
+			t.Fatalf("SELFTEST-FAIL canonical text of %q does not parse back", c.policy)
+		}
+	}
+	for _, bad := range []string{"", "&", "country: north korea", "(country: congo", "(country: china or taiwan)", "a:1 )", "a:1 b:2", "and", "not", "a:", ":1", "a:1 or", "a::1", "a:not"} {
+		if _, err := abe.Parse(bad); err == nil {
+			t.Fatalf("SELFTEST-FAIL reference parser accepts %q", bad)
+		}
+	}
+	vlib.Selftest("C20 reference evaluator/parser: 9 repository policies.json cases + 17 hand-derived cases + 14 rejections", "ok")
+}
